@@ -113,6 +113,18 @@ def build(spec):
             return np.asarray(spec["array"], dtype=float)
         if "callable" in spec:
             return CALLABLES[spec["callable"]]
+        if "penalty" in spec and "wrap" in spec["penalty"]:
+            family, factor = spec["penalty"]["wrap"], float(spec["penalty"]["factor"])
+
+            def wrapped(n, p, k, scale=1.0, _f=family, _c=factor):
+                """A user penalty built from a built-in one; it edits the arrays it got back in place (harmless: they are the user's)."""
+                from skchange.anomaly_detectors import mvcapa as M
+
+                alpha, betas = getattr(M, f"{_f}_mvcapa_penalty")(n, p, k, scale)
+                betas *= _c
+                return alpha * _c, betas
+
+            return wrapped
         if "penalty" in spec:
             alpha = float(spec["penalty"]["alpha"])
             betas = np.asarray(spec["penalty"]["betas"], dtype=float)
@@ -325,8 +337,12 @@ def related_predict(det, X, history):
         other = np.roll(Xr, max(1, len(Xr) // 3), axis=0)
     else:
         other = Xr.copy()
-        a = max(1, len(Xr) // 2 - 1)
-        other[a:a + max(1, len(Xr) // 8)] = other[a:a + max(1, len(Xr) // 8)] * -0.5 + (3 if Xr.dtype.kind in "iu" else 3.25)
+        if len(Xr) % 2:
+            a = max(1, len(Xr) // 2 - 1)  # a block of interior rows was different (recalibration)
+            other[a:a + max(1, len(Xr) // 8)] = other[a:a + max(1, len(Xr) // 8)] * -0.5 + (3 if Xr.dtype.kind in "iu" else 3.25)
+        else:
+            r_ = int(np.argmax(np.abs(Xr.astype(float)).reshape(len(Xr), -1).max(axis=1)))  # one reading inside the strongest event was
+            other[r_] = 0                                                                     # different (a removed glitch)
     try:
         det.predict(other)
         if hasattr(det, "transform_scores") and type(det).__name__ in ("PELT", "MovingWindow", "CAPA", "MVCAPA"):
